@@ -15,20 +15,21 @@ PROP = "C13"
 NAME_POOLS = V.ADVERSARIAL_NAMES + [["Kita", "D0", "D1", "Plain0", "Tr", "Clone"]]
 
 
-def item_text(names, nparams, rng):
+def item_text(names, nparams, rng, form=None, fixed=None):
     """an item whose signature and body mention the parameters in many syntactic positions"""
     if nparams == 0:
         return ""
     p0 = names[0]
     p1 = names[min(1, nparams - 1)]
+    q0 = (fixed or names)[0]      # spelling used at positions that are NOT occurrences of the parameter (field, module path)
     forms = [
         f"fn g(a: &{p0}, b: Option<{p1}>) -> usize {{ let _z: Vec<{p0}> = Vec::new(); core::mem::size_of::<{p1}>() }}",
-        f"fn g() -> usize {{ <{p0} as Clone>::clone; {p0}::default; let x: [{p1}; 2]; x.{p0}; m::{p0}(1); 0 }}",
+        f"fn g() -> usize {{ <{p0} as Clone>::clone; {p0}::default; let x: [{p1}; 2]; x.{q0}; m::{q0}(1); 0 }}",
         f"fn g(x: {p0}) -> <{p1} as core::ops::Deref>::Target {{ let f = |y: {p0}| -> {p1} {{ y.into() }}; loop {{}} }}",
         f"type Alias = ({p0}, fn({p1}) -> {p0}, &'static dyn Fn({p0}) -> {p1});",
         f"const C: usize = core::mem::size_of::<{p0}>() + {p1}::LEN;",
     ]
-    return rng.choice(forms)
+    return forms[form % len(forms)] if form is not None else rng.choice(forms)
 
 
 def independent_rename(t, ren):
@@ -129,11 +130,12 @@ def run(tier, seed, replay=None):
     texts = []      # (block text, group key for header-invariance, variant label)
     for i in range(n):
         c = rng.random()
-        plan = g.trait_args_plan() if c < 0.3 else (g.inherent() if c < 0.4 else g.basic())
+        plan = g.trait_args_plan() if c < 0.25 else (g.inherent() if c < 0.35 else (g.lifetime_keys_plan() if c < 0.5 else g.basic()))
         nb = len(plan.blocks())
         bi = rng.randrange(nb)
         base = copy.deepcopy(plan)
         m = base.blocks()[bi][2]
+        form = rng.randrange(5)
         for v in range(4):
             q = copy.deepcopy(base)
             mm = q.blocks()[bi][2]
@@ -143,7 +145,9 @@ def run(tier, seed, replay=None):
                     rng.shuffle(names)
                 mm.names = names[: max(mm.nparams, 1)] + [f"Q{j}" for j in range(max(0, mm.nparams - len(names)))]
                 rng.shuffle(mm.decl_order)
-            it = item_text(mm.names, mm.nparams, rng)
+                if mm.lifetimes and rng.random() < 0.5:
+                    mm.lifetimes = list(reversed(mm.lifetimes))
+            it = item_text(mm.names, mm.nparams, rng, form, fixed=m.names)
             if it and q.mode == "trait":
                 mm.patch = {"add_item": it}
             texts.append((q.block_text(bi), (i, bi), v))
@@ -211,14 +215,22 @@ def run(tier, seed, replay=None):
         if fail:
             rep.oracle_failures.append({**cj, **fail})
         # header invariance across renamings / declaration orders of the same block
-        hdr = (can[3][4], can[3][5])
-        headers.setdefault(grp, []).append((v, hdr, text))
+        # the canonical block up to the order of the declared parameters (trait path, self type, where-clause, items, and the
+        # declared parameters with their bounds as a sorted list)
+        gen = can[3][3]
+        # parameters that occur nowhere are never indexed and keep the user's spelling: not part of the comparison
+        decls = sorted(tref.show(p_, 100000) for p_, (_, nm) in zip(gen[3][1][3], decl_can) if nm.startswith(PARAM_PREFIX))
+        hdr = (can[3][4], can[3][5], gen[3][3], can[3][6], tref.N("Decls", decls))
+        headers.setdefault(grp, []).append((v, hdr, text, qself_capture(raw, ren)))
     for grp, lst in headers.items():
         ref = lst[0]
-        for v, hdr, text in lst[1:]:
+        for v, hdr, text, cap in lst[1:]:
             rep.count("header-variants-compared")
+            if hdr != ref[1] and (cap or ref[3]) and any(f_["id"] == "F-C13-qualified-path-trait-capture" for f_ in C.findings_for(PROP)):
+                rep.known("F-C13-qualified-path-trait-capture")
+                continue
             if hdr != ref[1]:
-                rep.oracle_failures.append({"clause": "blocks equal up to renaming and declaration order must receive identical canonical headers",
+                rep.oracle_failures.append({"clause": "blocks equal up to renaming and declaration order must receive identical canonical headers (and bodies)",
                                             "block_a": ref[2], "block_b": text,
                                             "first_difference": list(tref.first_diff(tref.N("H", [], list(ref[1])), tref.N("H", [], list(hdr))) or [])[-5:]})
                 break
